@@ -90,7 +90,7 @@ mod vharness {
     }
     fn same(a: &[u8], b: &[u8]) -> bool { if a.len() != b.len() { return false; } let mut i = 0; while i < a.len() { if a[i] != b[i] { return false; } i += 1; } true }
 
-    //@harness props=C14,C01 strength=proof tier=thorough clause="two adjacent \\uXXXX escapes in a quoted string, for EVERY pair of 16-bit code units and either hex-digit case: a non-surrogate first unit is that code point and the second escape is decoded independently (a lone surrogate there is an InvalidUtf16EscapeSequence error); a high surrogate followed by a low surrogate is the one supplementary code point 0x10000 + ((hi - 0xD800) << 10) + (lo - 0xDC00); any other surrogate combination is an InvalidUtf16EscapeSequence error naming both units; nothing is dropped or merged otherwise; the token spans the whole literal" timeout=900 replay=lex_unicode_pair
+    //@harness props=C14,C01 strength=proof clause="two adjacent \\uXXXX escapes in a quoted string, for EVERY pair of 16-bit code units and either hex-digit case: a non-surrogate first unit is that code point and the second escape is decoded independently (a lone surrogate there is an InvalidUtf16EscapeSequence error); a high surrogate followed by a low surrogate is the one supplementary code point 0x10000 + ((hi - 0xD800) << 10) + (lo - 0xDC00); any other surrogate combination is an InvalidUtf16EscapeSequence error naming both units; nothing is dropped or merged otherwise; the token spans the whole literal" timeout=900 replay=lex_unicode_pair
     #[kani::proof]
     #[kani::unwind(4)]
     fn quoted_unicode_escape_pair() {
@@ -185,7 +185,7 @@ mod vharness {
 
     //@harness props=C14,C01 strength=proof clause="single-character escapes, for EVERY byte after the backslash: \\\" \\' \\\\ \\/ \\b \\f \\n \\r \\t decode to exactly \" ' \\ / U+0008 U+000C U+000A U+000D U+0009; every other byte is an error (never silently kept or dropped)" timeout=600
     #[kani::proof]
-    #[kani::unwind(6)]
+    #[kani::unwind(4)]
     fn quoted_single_escape() {
         let x: u8 = kani::any();
         let input = [b'"', b'\\', x, b'"', b'"'];      // trailing byte: must not be consumed
